@@ -428,7 +428,7 @@ for k in (0, 1, 2):
         for with_default in (False, True):
             SELF = Built([], lambda env: SObj(GI.IrGenerator, _mode=GI.IrGenerator.Mode.CONCURRENT), lambda a: "<gen>", lambda a: None)
             OB = Built([], lambda env: [block("b0"), block("b1")], lambda a: "<blocks>", lambda a: None)
-            c = Case(f"select_with:{k}-merged-values,{nb}-branches{',default' if with_default else ''}", [SELF, select_shape(k, nb, with_default), OB], select_spec(k, nb, with_default))
+            c = Case(f"select_with:{k}-merged-values,{nb}-branches{',default' if with_default else ''}", [SELF, select_shape(k, nb, with_default), OB], select_spec(k, nb, with_default), props=PROPS)
             c.native = False
             c.models = BASE_MODELS
             c.interp_flags = {"class_call_models": {**CLASS_MODELS, ir.SelectWith: _mk_select}}
@@ -439,3 +439,59 @@ for k in (0, 1, 2):
 
             c.setup = setup
             con.cases.append(c)
+
+
+# ---- (E) inlined function calls: where execution continues after the call -----------------------------------------------------
+# A helper function is inlined.  Inside it a `return` ends a path: the block that path was writing to is parked in
+# IrGenerator.returned_blocks.  AFTER the call the caller continues on EVERY path that left the helper -- those that fell
+# off its end and those that returned early (`if skip: return` must not drop the rest of the caller on the skip path),
+# and the list of the enclosing call is put back untouched.
+class _CalleeCode:
+    """code of the callee: f_fall = blocks left open at its end, f_ret = blocks that ended with return"""
+
+
+_CalleeCode.returns_always = lambda self: None
+I.register_model(_CalleeCode.returns_always, lambda it, self: len(self.fields["f_fall"]) == 0)
+
+
+def _apply_callee(it, self, code, open_blocks=None, **kw):
+    cur = it.get_attr(GI.IrGenerator, "returned_blocks")
+    for b in code.fields["f_ret"]:
+        cur.append(b)
+    return list(code.fields["f_fall"])
+
+
+def call_spec(n_fall, n_ret):
+    def spec(sx, self, inp, open_blocks):
+        it = sx.it
+        code = sx.real_args[1].fields["_code"]
+
+        def holds(res):
+            want = code.fields["f_fall"] + code.fields["f_ret"]
+            if not (isinstance(res, list) and len(res) == len(want) and all(a is b for a, b in zip(res, want))):
+                return False
+            now = it.get_attr(GI.IrGenerator, "returned_blocks")
+            return now is it.parent_returned and now == ["parent-returned-block"]
+
+        return C.Pred(holds, "continues in the fall-through blocks and in the blocks that returned; the enclosing call's list is restored")
+
+    return spec
+
+
+for n_fall in (0, 1, 2):
+    for n_ret in (0, 1, 2):
+        SELF = Built([], lambda env: SObj(GI.IrGenerator, _mode=GI.IrGenerator.Mode.SEQUENTIAL), lambda a: "<gen>", lambda a: None)
+        INP = Built([], (lambda nf, nr: lambda env: SObj(out.Call, _code=SObj(_CalleeCode, f_fall=[block(f"fall{i}") for i in range(nf)], f_ret=[block(f"ret{i}") for i in range(nr)])))(n_fall, n_ret), lambda a: "<call>", lambda a: None)
+        OB = Built([], lambda env: [block("b0")], lambda a: "<blocks>", lambda a: None)
+        c = Case(f"call:{n_fall}-paths-fall-through,{n_ret}-paths-return", [SELF, INP, OB], call_spec(n_fall, n_ret), props=PROPS)
+        c.native = False
+        c.models = BASE_MODELS + [(GI.IrGenerator.__dict__["apply"], _apply_callee)]
+
+        def setup_call(it, ctx, args, env):
+            it.new_blocks = []
+            it.events = []
+            it.parent_returned = ["parent-returned-block"]
+            ctx.attr_overlay[(id(GI.IrGenerator), "returned_blocks")] = (GI.IrGenerator, it.parent_returned)
+
+        c.setup = setup_call
+        con.cases.append(c)
